@@ -150,6 +150,24 @@ fn main() {
         run_line(&mut ctx, &line);
         return;
     }
+    if argv.len() > 2 && argv[1] == "--script" {
+        // commands from a file, one per line (used for interpreter runs, where a pipe protocol is not worth its cost)
+        let text = {
+            let _g = mon::Excl::new();
+            std::fs::read_to_string(&argv[2]).unwrap_or_default()
+        };
+        for l in text.lines() {
+            if !run_line(&mut ctx, l) {
+                break;
+            }
+        }
+        {
+            // drop every handle so that an interpreter's leak check sees only what the library failed to release
+            let _g = mon::Excl::new();
+            ctx.handles.clear();
+        }
+        return;
+    }
     emit("{\"ev\":\"ready\"}\n");
     let stdin = std::io::stdin();
     let mut line = String::new();
